@@ -29,6 +29,7 @@ META['explanation'] += ' ' + 'R5 samples 8 byte fields beyond 2^32 and instants 
 META['explanation'] += ' ' + 'R8: timestamp fields receive the stored attribute (a constant in place of None never writes the sentinel).'
 
 META['explanation'] += ' ' + 'R3 also: a local-time function handed on as a value (converter), astimezone on a value whose zone was not tested. R10 / R11: the primitives keep nothing between calls. R12: no stripping, case mapping or replacement inside the shared string / byte primitives. R13: compose_bytes / compose_string evaluated around the largest length the prefix holds. R14: the string primitives convert with the encoding they are given.'
+META['explanation'] += ' ' + 'R15: the collection handed to compose_numeric_flags followed back through locals and helper returns: copies and selections pass, additions do not.'
 
 LOCAL_TIME = {'time.mktime', 'time.localtime', 'time.timezone', 'time.altzone', 'time.daylight', 'time.tzname', 'time.ctime',
               'time.asctime', 'time.strftime'}
